@@ -52,11 +52,19 @@ def build_harness(profile="release"):
         raise Infra("harness build failed (does /repo still compile with --features verif_hooks?)\n" + p.stdout[-6000:])
     exe = os.path.join(HARNESS, "target", "release" if profile == "release" else "debug", "vh")
     log("[build] harness %s %.1fs" % (profile, time.time() - t))
-    _built[profile] = exe
-    return exe
+    # private copy: a concurrent rebuild (another check, a seeded-change confirmation) must not swap the binary
+    # under a running check
+    import atexit
+    priv_dir = os.path.join(WORK, "bin")
+    os.makedirs(priv_dir, exist_ok=True)
+    priv = os.path.join(priv_dir, "vh-%s-%d" % (profile, os.getpid()))
+    shutil.copy2(exe, priv)
+    atexit.register(lambda: os.path.exists(priv) and os.remove(priv))
+    _built[profile] = priv
+    return priv
 
 
-def _run_shard(exe, sub, cases, per_case_timeout, extra_args):
+def _run_shard(exe, sub, cases, per_case_timeout, extra_args, env=None):
     """Run cases through one vh process; resume after hard crashes/timeouts."""
     results = [None] * len(cases)
     i = 0
@@ -66,7 +74,7 @@ def _run_shard(exe, sub, cases, per_case_timeout, extra_args):
         budget = 30 + per_case_timeout * len(chunk)
         try:
             p = subprocess.run([exe, sub] + extra_args, input=data, stdout=subprocess.PIPE,
-                               stderr=subprocess.DEVNULL, text=True, env=ENV, timeout=budget)
+                               stderr=subprocess.DEVNULL, text=True, env=env or ENV, timeout=budget)
             out, rc, timed_out = p.stdout, p.returncode, False
         except subprocess.TimeoutExpired as e:
             out = e.stdout.decode() if isinstance(e.stdout, bytes) else (e.stdout or "")
@@ -100,7 +108,7 @@ def _run_shard(exe, sub, cases, per_case_timeout, extra_args):
     return results
 
 
-def run_vh(sub, cases, profile="release", jobs=None, per_case_timeout=2.0, extra_args=None):
+def run_vh(sub, cases, profile="release", jobs=None, per_case_timeout=2.0, extra_args=None, stack_mb=None):
     exe = build_harness(profile)
     jobs = jobs or NCPU
     n = len(cases)
@@ -109,8 +117,11 @@ def run_vh(sub, cases, profile="release", jobs=None, per_case_timeout=2.0, extra
     jobs = max(1, min(jobs, (n + 49) // 50))
     shards = [list(range(j, n, jobs)) for j in range(jobs)]
     res = [None] * n
+    env = None
+    if stack_mb:
+        env = dict(ENV, VH_STACK_MB=str(stack_mb))
     with ThreadPoolExecutor(max_workers=jobs) as ex:
-        futs = [ex.submit(_run_shard, exe, sub, [cases[i] for i in idx], per_case_timeout, extra_args or [])
+        futs = [ex.submit(_run_shard, exe, sub, [cases[i] for i in idx], per_case_timeout, extra_args or [], env)
                 for idx in shards]
         for idx, f in zip(shards, futs):
             for i, r in zip(idx, f.result()):
